@@ -116,6 +116,8 @@ func (o Op) String() string {
 		return fmt.Sprintf("%s(%s)", o.Kind, o.Rel)
 	case "ReadFrom":
 		return fmt.Sprintf("ReadFrom(%s,chunk=%d)", o.Rel, o.Chunk)
+	case "Reset":
+		return "Reset(new destination, other side)"
 	case "ReadFromErr":
 		if o.Chunk < 0 {
 			return fmt.Sprintf("ReadFrom(%s bytes together with source error)", o.Rel)
@@ -216,6 +218,8 @@ type Session struct {
 	PlainOnly  bool   // only Write/ReadFrom/Grow since the last final flush
 	WriteOnly  bool   // only Write/Grow since the last final flush
 	Failed     bool   // an error was reported by the writer (C16)
+	// Dead: a Reset refused the buffer for the other side (documented panic); later calls are skipped
+	Dead bool
 	// DirtyUnknown: a call happened that may or may not count as "something written"
 	DirtyUnknown bool
 
@@ -235,12 +239,43 @@ func NewSession(c Cfg, w *wsutil.Writer, d *env.Dst) *Session {
 
 // Apply performs one operation and checks every clause that must hold when the call returns.
 func (s *Session) Apply(o Op) *explore.Fail {
+	if s.Dead {
+		return nil
+	}
 	w := s.W
 	callsBefore := len(s.Dst.Calls)
 	bufBefore := w.Buffered()
 	var n int64
 	var err error
 	switch o.Kind {
+	case "Reset":
+		// the writer moves on to a connection of the other side: whatever it still held is
+		// dropped, and from here on it has to behave like a writer made for that side
+		c := s.Cfg
+		c.Client = !c.Client
+		d := env.NewDst()
+		tooSmall := false
+		func() {
+			defer func() {
+				if e := recover(); e != nil {
+					if fmt.Sprint(e) != "wsutil: writer buffer is too small" {
+						panic(e)
+					}
+					tooSmall = true
+				}
+			}()
+			w.Reset(d, c.State(), c.OpCode)
+		}()
+		if tooSmall {
+			// documented: the buffer cannot hold the other side's header; nothing more to ask
+			s.Dead = true
+			return nil
+		}
+		Configure(w, c)
+		obs := s.Obs
+		*s = *NewSession(c, w, d)
+		s.Obs = append(obs, CallObs{Op: o.String(), Size: w.Size()})
+		return nil
 	case "Write":
 		p := Gen(s.pos, o.K)
 		keep := append([]byte{}, p...)
